@@ -12,7 +12,10 @@
 (*                                                                         *)
 (* A request is a record                                                    *)
 (*   [svc, tag, mode, idx, n, off, typ, vals, bytes, ms]                    *)
-(*   svc  \in {"read","readf","write","writef","gas","sas","multi"}          *)
+(*   svc  \in {"read","readf","write","writef","gas","sas","gal","gaa","multi"} *)
+(*   (gal: Get Attribute List, with the attribute numbers in an extra field   *)
+(*   attrs; gaa: Get Attributes All -- both addressed to the OBJECT of tag    *)
+(*   r.tag, i.e. the class and instance of its numeric address)               *)
 (*   tag  : index into C.tags, 0 = a tag name the device does not know      *)
 (*   mode : "sym" (symbolic name) | "cia" (class/instance/attribute)         *)
 (*   idx  : element index, -1 = no element segment in the path               *)
@@ -153,15 +156,34 @@ AttrOuts(C, mem, r) ==
   ELSE LET els == Split(r.bytes, sz) IN
        { Ok(0, <<>>, [ mem EXCEPT ![r.tag] = [ i \in 1 .. Len(els) |-> Canon(T.type, els[i]) ] ]) }
 
+\* Get Attribute List / Get Attributes All on the object holding tag r.tag.  The list reply is, per requested number,
+\* the number, a 16-bit status (0, or 0x16 = no such attribute) and the attribute's octets; the all reply is the octets of
+\* the attributes numbered 1, 2, ... as far as they exist.  (Objects holding nothing but tags: the domain's business.)
+TagsAt(C, c, i, a) == { t \in 1 .. Len(C.tags) : C.tags[t].cia = <<c, i, a>> }
+GalItem(C, mem, c, i, a) == LET ts == TagsAt(C, c, i, a) IN
+                            U16(a) \o (IF ts = {} THEN U16(22) ELSE U16(0) \o TagBytes(C, mem, CHOOSE t \in ts : TRUE))
+RECURSIVE GaaBytes(_, _, _, _, _)
+GaaBytes(C, mem, c, i, a) == LET ts == TagsAt(C, c, i, a) IN
+                             IF ts = {} THEN <<>> ELSE TagBytes(C, mem, CHOOSE t \in ts : TRUE) \o GaaBytes(C, mem, c, i, a + 1)
+ObjOuts(C, mem, r) ==
+  IF r.tag = 0 THEN { AnyFail(mem) }
+  ELSE LET c == C.tags[r.tag].cia[1]  i == C.tags[r.tag].cia[2] IN
+  IF r.svc = "gal"
+  THEN (IF r.attrs = <<>> THEN { AnyFail(mem) }                              \* PERMISSIVE: a list of no attributes (the code marks it TODO)
+        ELSE { [k |-> "okbytes", st |-> 0, ext |-> <<>>, data |-> Concat([ j \in 1 .. Len(r.attrs) |-> GalItem(C, mem, c, i, r.attrs[j]) ]), mem |-> mem] })
+  ELSE LET all == GaaBytes(C, mem, c, i, 1) IN
+       IF all = <<>> THEN { AnyFail(mem) } ELSE { [k |-> "okbytes", st |-> 0, ext |-> <<>>, data |-> all, mem |-> mem] }
+
 SingleOuts(C, mem, r) ==
   IF r.svc \in {"read", "readf"} THEN ReadOuts(C, mem, r)
   ELSE IF r.svc \in {"write", "writef"} THEN WriteOuts(C, mem, r)
+  ELSE IF r.svc \in {"gal", "gaa"} THEN ObjOuts(C, mem, r)
   ELSE AttrOuts(C, mem, r)
 
 ----------------------------------------------------------------------------
 (* Wire form of requests and of outcomes *)
 SvcCode(r) == CASE r.svc = "read" -> 76 [] r.svc = "readf" -> 82 [] r.svc = "write" -> 77 [] r.svc = "writef" -> 83
-                [] r.svc = "gas" -> 14 [] r.svc = "sas" -> 16 [] r.svc = "multi" -> 10
+                [] r.svc = "gas" -> 14 [] r.svc = "sas" -> 16 [] r.svc = "multi" -> 10 [] r.svc = "gal" -> 3 [] r.svc = "gaa" -> 1
 
 ReqPath(C, r) ==
   \* an unknown destination: a name no tag has, an instance the Message Router class does not have, a class nobody has (the
@@ -170,6 +192,10 @@ ReqPath(C, r) ==
                                  ELSE <<SymSeg(UnknownName)>>)
               ELSE IF r.mode = "sym" THEN <<SymSeg(C.tags[r.tag].name)>> ELSE CIASegs(C.tags[r.tag].cia)
   IN IF r.idx >= 0 THEN base \o <<ElemSeg(r.idx)>> ELSE base
+\* the object (class, instance) a list / all request goes to
+ObjPath(C, r) == IF r.tag = 0 THEN (IF r.mode = "noclass" THEN <<[k |-> "class", v |-> 119], [k |-> "inst", v |-> 1]>>
+                                    ELSE <<[k |-> "class", v |-> 2], [k |-> "inst", v |-> 7]>>)
+                 ELSE <<[k |-> "class", v |-> C.tags[r.tag].cia[1]], [k |-> "inst", v |-> C.tags[r.tag].cia[2]]>>
 
 RECURSIVE EncReq(_, _)
 EncReq(C, r) ==
@@ -179,6 +205,8 @@ EncReq(C, r) ==
     [] r.svc = "writef" -> EncWriteFrag(ReqPath(C, r), r.typ, r.n, r.off, r.vals)
     [] r.svc = "gas"    -> EncGetAttrSingle(ReqPath(C, r))
     [] r.svc = "sas"    -> EncSetAttrSingle(ReqPath(C, r), r.bytes)
+    [] r.svc = "gal"    -> EncGetAttrList(ObjPath(C, r), r.attrs)
+    [] r.svc = "gaa"    -> EncGetAttrAll(ObjPath(C, r))
     [] r.svc = "multi"  -> EncMultiple([ i \in 1 .. Len(r.ms) |-> EncReq(C, r.ms[i]) ])
 
 \* does the reply octets `rpy' (<<>> = the request was answered by a failure outside the CIP reply) express outcome o?
